@@ -209,7 +209,7 @@ PLANS["C13"] = {
     "random": [{"gen": gens.gen_callbacks}],
     "min_scenarios": {"quick": 3000, "thorough": 50000},
     "assumptions": [
-        "events on which the statement is silent (header row, column 0, separators, add-time events of AddHeaders and of late cells, (time,target) pairs no slot mentions) are optional: at most once, in slot order",
+        "events on which the statement is silent (header row, cell callbacks of the defaults column 0, separators, add-time events of AddHeaders and of late cells, (time,target) pairs no slot mentions) are optional: at most once, in slot order",
         "the recording callback identifies its target by pointer identity through the public API after the call returns",
     ],
 }
